@@ -120,8 +120,9 @@ fn run_deep(ctx: &Ctx, lg_k: u8, bound: usize, stride1: usize, stride2: usize, f
                     if ops.last() != Some(&p) {
                         ops.push(p);
                     }
-                    cpcm::report(ctx, vs, lg_k, &ops);
-                    return false;
+                    if cpcm::report(ctx, vs, lg_k, &ops) {
+                        return false;
+                    }
                 }
                 if full {
                     obs(ctx, d, &|| json!({"kind":"cpc_run","lg_k":lg_k,"run":rname,"pos":pos,"deviations":trace}));
@@ -206,8 +207,9 @@ fn run_small(ctx: &Ctx, lg_k: u8, depth: usize, obs: &Observer) {
                 }
                 let ops: Vec<u32> = prefix.iter().copied().chain(path.iter().map(|&i| alphabet[i as usize])).chain([p]).collect();
                 if !vs.is_empty() {
-                    cpcm::report(ctx, vs, lg_k, &ops);
-                    return Step::Stop;
+                    if cpcm::report(ctx, vs, lg_k, &ops) {
+                        return Step::Stop;
+                    }
                 }
                 obs(ctx, &n, &|| cpcm::replay_json(lg_k, &ops));
                 Step::Next(n)
